@@ -43,6 +43,11 @@ CHECKS = {
             'For each catalogue program (core, agg, sugarbase) and each applicable documented equivalence, z3 proves short form == long form on every database with <=K rows per table; a long form rejected by the compiler is a violation.',
             'Trusted: lv/sqlsem.py, z3. Known finding KF-C11-eq-after-expression.',
             'DESIGN.md §3 C11', 'sqlsmt'),
+    'C12': ('translation_validation',
+            '(a) metamorphic: program split over import files vs generator-flattened single file, both compiled by the real compiler, equivalence decided by z3 over a bounded symbolic database; (b,c) CrossHair symbolic execution of the real ParseFile prefix loop and import acceptance rules, claimed on "Confirmed over all paths"; counterexamples replayed',
+            'z3 proves split == flattened for each enumerated import layout on every database with <=2 rows per table; CrossHair confirms distinct non-empty prefixes for all ordered pairs of distinct import paths up to depth 2 (3 thorough) over a 3-word alphabet, and that imports are rejected exactly per the documented rules over 15x8 configurations.',
+            'Trusted: lv/sqlsem.py, z3, CrossHair. Outside: C++ parser, import graphs beyond the layouts.',
+            'DESIGN.md §3 C12', 'sqlsmt'),
     'C17': ('translation_validation',
             'histories of CLI-style runs executed by a symbolic statement interpreter (DROP/CREATE/ATTACH + SELECT) over a symbolic database file; each assertion is a z3 equivalence between stores/rows; sat models replayed on a real SQLite file',
             'For each catalogue program with grounded intermediates and each enumerated history of <=3 runs, z3 proves for every database content within the bound: dependant rows == program without @Ground; table of P == P alone; printing P writes nothing; re-runs return the same rows and leave the same tables.',
